@@ -496,5 +496,33 @@ def abs (a : Arena V) : Option (St V) := do
   let t ← absTree (a.nodes.size + 1) a a.root
   pure { tree := t, pool := { bufLen := a.nodes.size, unused := a.unused.toList.reverse, cap := a.cap } }
 
+/-! ### executable representation check (driver): the hypotheses of the arena-level theorems, decided on a
+concrete arena. `absP` is `abs` that also insists on every parent field; `garbageOK` runs the stale-link walk
+from every slot outside the tree; `zeroOK` looks at the scratch slot. Proved sound in `Lemmas/ArenaCheck.lean`. -/
+
+def absTreeP : Nat → Arena V → Nat → Nat → Option (T (Ent V))
+  | 0, _, _, _ => none
+  | fuel+1, a, i, p =>
+    if i == EMPTY then some .leaf else do
+      let n ← a.node i
+      if n.parent != p then none
+      else
+        let l ← absTreeP fuel a n.left i
+        let r ← absTreeP fuel a n.right i
+        pure (.node (if n.red then .red else .black) l i n.ent r)
+
+def absP (a : Arena V) : Option (St V) := do
+  let t ← absTreeP (a.nodes.size + 1) a a.root EMPTY
+  pure { tree := t, pool := { bufLen := a.nodes.size, unused := a.unused.toList.reverse, cap := a.cap } }
+
+def garbageOK (a : Arena V) (live : List Nat) : Bool :=
+  (List.range a.nodes.size).all fun j =>
+    j == 0 || live.contains j || (match isPartOfTree (a.nodes.size + 1) a j with | some false => true | _ => false)
+
+def zeroOK (a : Arena V) : Bool :=
+  match a.node 0 with
+  | none => true
+  | some n => (n.left == 0 || n.left == EMPTY) && (n.right == 0 || n.right == EMPTY)
+
 end Arena
 end ITree
